@@ -298,6 +298,8 @@ def _play(sc, base, bad):
             if code != 0:
                 bad(f"setup: create -sf {step[1]} exits {code} ({exc!r}): {out[-200:]}", "setup/sf")
                 return
+        elif kind == "add":
+            W.build(root, step[1])
         elif kind == "fail":
             fp = os.path.join(root, step[1])
             st = os.stat(fp)
@@ -728,6 +730,9 @@ def gen_cases(run):
         "late-nested": [("create", h(["md5"])), ("nest", "A", h(["md5"])), ("create", h(["md5"]))],
         "other-renamed-before": [("create", h(["md5"])), ("mv", [("B/b.txt", "B/b2.txt")], h(["md5"]))],
         "other-renamed-long-before": [("create", h(["md5"])), ("mv", [("B/b.txt", "B/b2.txt"), ("z/empty.bin", "E/empty.bin")], h(["md5"]))] + [("create", h(["md5"]))] * 11,
+        # the renamed files were first recorded in DIFFERENT formats and the -dr run uses neither of them
+        "mixed-first-formats": [("sf", ["c.txt", "B/b.txt"], h(["md5"])), ("sf", ["A/a.txt", "A/deep/x.bin", "A/deep/notes.txt"], h(["xxh64"]))],
+        "mixed-first-formats-full": [("create", h(["md5"])), ("add", {"late1.bin": "late one", "A/late2.bin": "late two"}), ("create", h(["xxh64"]))],
         "renamed-before": [("create", h(["md5"])), ("mv", [("c.txt", "c1.txt")], h(["md5"]))],
         "renamed-before-plain-between": [("create", h(["md5"])), ("mv", [("c.txt", "c1.txt")], h(["md5"])), ("create", h(["md5"]))],
         "renamed-twice-before": [("create", h(["md5"])), ("mv", [("c.txt", "c1.txt")], h(["md5"])), ("mv", [("c1.txt", "B/c1b.txt")], h(["md5"]))],
@@ -742,7 +747,13 @@ def gen_cases(run):
                 mv = [("c1.txt", "c renamed.txt" if lname == "stay" else "N/c2.txt")] + mv[1:]
             if hname == "renamed-twice-before":
                 mv = [("B/c1b.txt", "c renamed.txt" if lname == "stay" else "N/c2.txt")] + mv[1:]
-            sc = scenario(f"hist/{hname}/{lname}", ("hist", hname, lname), deep, [], pre=pre, renames=mv, newfiles={"B/unrel.txt": "unrelated"}, dr=h(["md5"]), full=True)
+            drf = h(["md5"])
+            if hname == "mixed-first-formats":
+                drf = h(["c4"])
+            if hname == "mixed-first-formats-full":
+                drf = []  # default format (xxh128)
+                mv = mv + [("late1.bin", "late1 moved.bin"), ("A/late2.bin", "B/late2.bin")]
+            sc = scenario(f"hist/{hname}/{lname}", ("hist", hname, lname), deep, [], pre=pre, renames=mv, newfiles={"B/unrel.txt": "unrelated"}, dr=drf, full=True)
             sc["own_g1"] = True
             cases.append(sc)
     # rename back to the first name (one step per generation)
